@@ -46,7 +46,7 @@ def bad_item(kind, rng, nt, bo, tail):
             bad = (0, 2)
         return nd_spec(np.zeros(bad, dtype=own))
     if kind == 'unconv':
-        k = rng.choice(['obj', 'str', 'ragged', 'numlist', 'numlist'])
+        k = rng.choice(['obj', 'str', 'ragged', 'numlist', 'numlist'] + (['none'] if __import__('numpy').dtype(nt).kind in 'iu' else []))
         if k == 'numlist':
             # a LIST holding a number NumPy refuses to convert to the array's type
             import numpy as _np
@@ -147,10 +147,30 @@ def gen(ctx):
                         items.insert(0, nd_spec(rand_array(r, nt, bo, (big_rows if start_empty else 1,) + tail))); pos = 1
                     op2 = dict(op='iterappend', items=items, fsize=dict(chunk=pos, k=kk))
                     cases.append(mk_case(r, nt, bo, tail, nrows, start_empty, op2, 'w', pos))
+    # an EMPTY array whose first chunk has no rows (it goes through the first-chunk path all the same),
+    # then good chunks, then a failing one; and a first chunk that is None
+    for ti, nt in enumerate(NUMTYPES):
+        bo = ('little', 'big')[ti % 2]
+        tail = [(), (2,), (1, 3)][ti % 3]
+        for kind in ('shape', 'raise', 'unconv'):
+            if ctx.quick and (ti + len(kind)) % 2:
+                continue
+            items = [nd_spec(np.zeros((0,) + tail, dtype=dtype_str(nt, bo))), nd_spec(rand_array(r, nt, bo, (2,) + tail)),
+                     bad_item(kind, r, nt, bo, tail), nd_spec(rand_array(r, nt, bo, (1,) + tail))]
+            cases.append(mk_case(r, nt, bo, tail, 1, True, dict(op='iterappend', items=items), kind, 2))
+        if np.dtype(nt).kind in 'iu':      # (for float types NumPy reads None as nan: not a failure)
+            items = [dict(kind='none'), nd_spec(rand_array(r, nt, bo, (1,) + tail))]
+            cases.append(mk_case(r, nt, bo, tail, 1, True, dict(op='iterappend', items=items), 'unconv', 0))
     # every third failing append happens with the array held open in an open_array() context
     for i, c in enumerate(cases):
         if i % 3 == 2:
             c['heldopen'] = True
+            if i % 2 == 0 and 'fsize' not in c['ops'][0]:
+                # ... and a valid append follows the failed one inside the same context
+                t = tuple(c['shape'][1:])
+                good = dict(op='append', items=[nd_spec(rand_array(r, c['nt'], c['bo'], (2,) + t))])
+                c['ops'] = [c['ops'][0], good] + c['ops'][1:]
+                c['letters'] = [c['letters'][0], 'a1'] + c['letters'][1:]
     return cases
 
 
@@ -197,6 +217,14 @@ def run(ctx):
             why = 'the call did not raise'
         else:
             why = arrlib.check_c03(st, None) or arrlib.check_c02(st)
+        if not why:
+            # what follows the failed call (a valid append inside the same context, the reopen)
+            for j, s2 in enumerate(steps[2:], start=2):
+                if case['ops'][j - 1]['op'] == 'append' and s2['res'][0] != 'ok':
+                    why = 'a valid append after the failed one raised %s' % s2['res'][1]
+                why = why or arrlib.check_c03(s2, None) or arrlib.check_c02(s2)
+                if why:
+                    break
         if why:
             ctx.fail('failed-append:' + case['kind'], dict(case=dict(case, init='<zeros>'), step=1),
                      detail=why, expected=dict(shape=st['ref']['shape']),
